@@ -39,9 +39,8 @@
   * the normal *vectors* (`FaceNormals`, `VolumeNormals`) are finite unit vectors — glam `f32`
     arithmetic is not modelled; only the keys are (and those are compared, not proved).  The clause
     is in fact FALSE in 3-D at straight corners (NaN; known finding D20a).
-  * 3-D: dart `end`, corner order = β1-cycle, the two-sided dart enumeration (second side from
-    `β3 id`; one entity per in-use dart), panic-freedom and the `VolumeNormals` keys — they need the
-    walk lemma and the id theory for `orbit3` / `faceId3` / `vertexId3` (C03 covers 2-D only).
+  * (3-D dart `end`, corner order, two-sided enumeration, one entity per in-use dart, panic-freedom,
+    normal keys, and the exact part of the normals are proved in Props/C20b.lean.)
 -/
 import Honeycomb.Model.Scene
 import Honeycomb.Props.C03
